@@ -1,12 +1,129 @@
-(* C19 -- Sequence completion is sound, complete and shortest.  (theorems being added) *)
-From Coq Require Import ZArith List Bool.
-From VC2 Require Import Model.Regex Model.NFA Model.Matcher Model.MatchSeq.
+(* C19 -- Sequence completion is sound, complete and shortest.
+   Property theorems only; each closed by `exact <lemma>` (Proofs/MatchSeqProofs.v).
+   Model (tie C, tools/harness/C19.py): Model/MatchSeq.v = make_matching_sequence of
+   vc2_conformance/symbol_re.py (queue-based search with the greedy `continue`, the
+   insertion-limit reset on a match, candidate sets with WILDCARD handling, symbol_priority
+   ordering) on top of the C18 Matcher model in `Directed` mode (the repaired code).
+
+   make_seq fuel init pats limit prio  =  make_matching_sequence(init, *pats,
+   depth_limit=limit, symbol_priority=prio); fuel = number of loop iterations allowed;
+   results: Seq out | Impossible (ImpossibleSequenceError) | OutOfFuel (excluded by every
+   statement; C19_terminates shows that enough fuel always exists).
+
+   Hypothesis granted by the property (as for C18): `all_ok pats` = every pattern uses `$`
+   only where nothing mandatory follows it (eos_ok).
+
+   RESULT.  The unconditional part of the property (soundness) holds: C19_sound.
+   Completeness and shortestness are FALSE for the code as written (known finding
+   `make_matching_sequence:greedy-continue`): C19_full_refuted.  What the code does
+   compute is proved instead: C19_greedy_shortest_partial. *)
+From Coq Require Import ZArith List Bool Permutation.
+From VC2 Require Import Model.Regex Model.NFA Model.Matcher Model.MatchSeq Proofs.MatchSeqProofs.
 Import ListNotations.
 Open Scope Z_scope.
 
-(* the two witnesses of the known finding, on the model (a=1 b=2 c=3 x=4 y=5) *)
-Example C19_witnesses :
-  make_seq 1000 [1; 2] [Alt (Cat (Sym 1) (Sym 3)) (Cat (Sym 4) (Cat (Sym 1) (Sym 2)))] 3 [] = Impossible
-  /\ make_seq 1000 [1; 2] [Alt (Cat (Sym 1) (Cat (Sym 4) (Cat (Sym 4) (Cat (Sym 4) (Sym 2))))) (Cat (Sym 5) (Cat (Sym 1) (Sym 2)))] 3 []
-     = Seq [1; 4; 4; 4; 2].
-Proof. vm_compute. split; reflexivity. Qed.
+(* Whenever the generator returns, the result contains the required symbols in order with
+   only insertions (subseq) and every pattern matches it.  All required lists, all pattern
+   sets, all insertion limits and priorities. *)
+Theorem C19_sound : forall (fuel : nat) (init : list sym) (pats : list re) (limit : Z) (prio out : list sym),
+  all_ok pats ->
+  make_seq fuel init pats limit prio = Seq out ->
+  subseq init out /\ Forall (fun p => lang p out) pats.
+Proof. exact (fun fuel init pats limit prio out Hok => make_seq_sound pats prio limit Hok fuel init out). Qed.
+
+(* PARTIAL (what is missing: the full statement quantifies over ALL completions, this one
+   over the greedy ones).  `greedy_completions pats prio limit init` (inductive `gc` in
+   Proofs/MatchSeqProofs.v) are the completions built by never inserting a symbol at a
+   point where the next required symbol keeps every pattern completable (and by stopping
+   as soon as everything required is placed and every pattern matches); inserted symbols
+   come from `cands_at` and at most `limit` are inserted in a row.  The code returns a
+   shortest greedy completion and reports impossibility exactly when there is none. *)
+Theorem C19_greedy_shortest_partial :
+  forall (fuel : nat) (init : list sym) (pats : list re) (limit : Z) (prio : list sym),
+  all_ok pats ->
+  (forall out, make_seq fuel init pats limit prio = Seq out ->
+     greedy_completions pats prio limit init out /\
+     forall out', greedy_completions pats prio limit init out' -> (length out <= length out')%nat)
+  /\ (make_seq fuel init pats limit prio <> OutOfFuel ->
+      (make_seq fuel init pats limit prio = Impossible <->
+       forall out, ~ greedy_completions pats prio limit init out)).
+Proof.
+  exact (fun fuel init pats limit prio Hok =>
+           conj (make_seq_greedy pats prio limit Hok fuel init)
+                (make_seq_impossible pats prio limit Hok fuel init)).
+Qed.
+
+(* the inserted symbols of a greedy completion keep every pattern completable ... *)
+Theorem C19_candidates_viable : forall (pats : list re) (prio w : list sym) (c : sym),
+  all_ok pats -> In c (cands_at pats prio w) -> Forall (fun p => exists v, lang p (w ++ c :: v)) pats.
+Proof. exact cands_at_viable. Qed.
+
+(* ... and unless every pattern accepts every symbol after w, they are exactly those symbols *)
+Theorem C19_candidates_exact : forall (pats : list re) (prio w : list sym) (ms : list matcher) (c : sym),
+  all_ok pats -> feed_all pats w = Some ms ->
+  Exists (fun p => ~ forall s, exists v, lang p (w ++ s :: v)) pats ->
+  (In c (cands_at pats prio w) <-> Forall (fun p => exists v, lang p (w ++ c :: v)) pats).
+Proof. exact cands_at_exact. Qed.
+
+(* The search always ends: with enough fuel the result is not OutOfFuel. *)
+Theorem C19_terminates : forall (init : list sym) (pats : list re) (limit : Z) (prio : list sym),
+  exists fuel0, forall fuel, (fuel0 <= fuel)%nat -> make_seq fuel init pats limit prio <> OutOfFuel.
+Proof. exact make_seq_terminates. Qed.
+
+(* The result does not depend on the order in which Python iterates over the candidate SET
+   (hash-seed dependent): any two enumerations give the same result, because `sorted`'s key
+   is injective (sort_key_inj) and its order total. *)
+Theorem C19_order_independent : forall (enum1 enum2 : list label -> list label),
+  (forall l, Permutation l (enum1 l)) -> (forall l, Permutation l (enum2 l)) ->
+  forall (fuel : nat) (init : list sym) (pats : list re) (limit : Z) (prio : list sym),
+    make_seq_gen enum1 fuel init pats limit prio = make_seq_gen enum2 fuel init pats limit prio.
+Proof. exact make_seq_order_independent. Qed.
+
+(* ---- the full statement, kept visible, and its refutation ---------------------------- *)
+(* `completion init pats limit out`: out extends init by insertions only, at most `limit`
+   in a row, and every pattern matches out. *)
+Definition C19_full : Prop :=
+  forall (fuel : nat) (init : list sym) (pats : list re) (limit : Z) (prio : list sym),
+  all_ok pats ->
+  (forall out, make_seq fuel init pats limit prio = Seq out ->
+     (subseq init out /\ Forall (fun p => lang p out) pats)
+     /\ forall out', completion init pats limit out' -> (length out <= length out')%nat)
+  /\ (make_seq fuel init pats limit prio = Impossible -> forall out', ~ completion init pats limit out').
+
+(* witness 1 (completeness): pattern `(a c) | (x a b)`, required [a, b] (a=1 b=2 c=3 x=4):
+   ImpossibleSequenceError although x a b qualifies;
+   witness 2 (shortestness): `a x x x b | y a b`, required [a, b] (y=5): returns a x x x b
+   (length 5) although y a b (length 3) qualifies. *)
+Theorem C19_full_refuted :
+  (exists fuel init pats limit prio out',
+     all_ok pats /\ make_seq fuel init pats limit prio = Impossible /\ completion init pats limit out')
+  /\ (exists fuel init pats limit prio out out',
+        all_ok pats /\ make_seq fuel init pats limit prio = Seq out
+        /\ completion init pats limit out' /\ (length out' < length out)%nat).
+Proof.
+  exact (conj (ex_intro _ 10%nat (ex_intro _ [1; 2] (ex_intro _ [wit1] (ex_intro _ 3 (ex_intro _ [] (ex_intro _ [4; 1; 2] refute_complete))))))
+              (ex_intro _ 10%nat (ex_intro _ [1; 2] (ex_intro _ [wit2] (ex_intro _ 3 (ex_intro _ []
+                 (ex_intro _ [1; 4; 4; 4; 2] (ex_intro _ [5; 1; 2] refute_shortest)))))))).
+Qed.
+
+Theorem C19_full_false : ~ C19_full.
+Proof. exact full_false. Qed.
+
+(* ---- non-vacuity ---------------------------------------------------------------------- *)
+(* level-64 shape with the generic pattern (h=4 p=3 e=1, padding 2):
+   `h .* e`, `(h p)* e`, required [p; p], priority [padding; h] -> h p h p e;
+   `. a .`, required [a], no priority -> a a WILDCARD (greedy: the required a is used for the `.`); the two witnesses *)
+Example C19_example :
+  make_seq 100 [3; 3] [Cat (Sym 4) (Cat (Star Any) (Sym 1)); Cat (Star (Cat (Sym 4) (Sym 3))) (Sym 1)] 3 [2; 4]
+    = Seq [4; 3; 4; 3; 1]
+  /\ make_seq 100 [1] [Cat Any (Cat (Sym 1) Any)] 3 [] = Seq [1; 1; -1]
+  /\ make_seq 100 [1; 2] [wit1] 3 [] = Impossible
+  /\ make_seq 100 [1; 2] [wit2] 3 [] = Seq [1; 4; 4; 4; 2]
+  /\ all_ok [Cat (Sym 4) (Cat (Star Any) (Sym 1)); Cat (Star (Cat (Sym 4) (Sym 3))) (Sym 1)].
+Proof. repeat (split; [vm_compute; reflexivity |]). repeat constructor. Qed.
+
+(* the hypotheses of C19_greedy_shortest_partial / C19_sound are satisfiable with a
+   non-trivial conclusion: a greedy completion with an insertion exists *)
+Example C19_greedy_nonempty :
+  greedy_completions [Cat (Sym 4) (Sym 1)] [] 3 [1] [4; 1].
+Proof. exact greedy_example. Qed.
